@@ -1,5 +1,6 @@
 """The fixed class/object universe of the C02 check (imported by generated modules
 and by harness/c02.py; the Coq side is coq/theories/Narrow/Base.v)."""
+import collections.abc
 import enum
 
 
@@ -45,6 +46,8 @@ o0 = object()
 
 NoneType = type(None)
 EnumMeta = enum.EnumMeta
+Sequence = collections.abc.Sequence
+Mapping = collections.abc.Mapping
 
 CLASSES = {
     "object": object,
@@ -64,6 +67,10 @@ CLASSES = {
     "E": E,
     "IE": IE,
     "EnumMeta": enum.EnumMeta,
+    "list": list,
+    "dict": dict,
+    "Sequence": collections.abc.Sequence,
+    "Mapping": collections.abc.Mapping,
 }
 # name -> Coq constructor
 COQ_CLS = {
@@ -84,6 +91,10 @@ COQ_CLS = {
     "E": "CE",
     "IE": "CIE",
     "EnumMeta": "CEnumMeta",
+    "list": "CList",
+    "dict": "CDict",
+    "Sequence": "CSequence",
+    "Mapping": "CMapping",
 }
 CLS_ORDER = list(COQ_CLS)  # order = Base.cls_code
 INSTANCES = {("A", 0): a0, ("A", 1): a1, ("B", 0): b0, ("C", 0): c0, ("Falsy", 0): f0, ("AC", 0): ac0, ("object", 0): o0}
